@@ -240,14 +240,17 @@ theorem mid_after_colon : ∀ (L : Bytes) (l : Nat) (cr : Bool) (n x : Nat),
             simp only [List.drop_succ_cons]
             exact mid_after_colon t _ _ n' x' hb hn' hx' (by omega)
 
-theorem mid_dropSpaces : ∀ (L : Bytes), Mid L → Mid (L.drop (L.takeWhile (· == 32)).length)
+theorem isOWS_ne_lf (c : UInt8) (h : isOWS c = true) : c ≠ 10 := by
+  intro hc; subst hc; revert h; decide
+
+theorem mid_dropSpaces : ∀ (L : Bytes), Mid L → Mid (L.drop (L.takeWhile isOWS).length)
   | [], h => by simpa using h
   | c :: t, h => by
-    by_cases hc : c = 32
-    · subst hc
-      simp only [List.takeWhile_cons, beq_self_eq_true, if_true, List.length_cons, List.drop_succ_cons]
-      exact mid_dropSpaces t ((mid_cons 32 t (by decide)).mp h)
-    · simpa [List.takeWhile_cons, hc] using h
+    cases hc : isOWS c with
+    | true =>
+      simp only [List.takeWhile_cons, hc, if_true, List.length_cons, List.drop_succ_cons]
+      exact mid_dropSpaces t ((mid_cons c t (isOWS_ne_lf c hc)).mp h)
+    | false => simpa [List.takeWhile_cons, hc] using h
 
 theorem mid_after_lf : ∀ (L : Bytes) (j : Nat), Mid L → indexByte 10 L = some j → HasBlank (L.drop (j + 1))
   | [], _, _, h => by simp [indexByte] at h
@@ -379,20 +382,21 @@ theorem indexByte_get (c : UInt8) (b : Bytes) (n : Nat) (h : indexByte c b = som
   simp [List.length_take, Nat.min_eq_left (Nat.le_of_lt hl)]
 
 theorem takeWhile_sp_append : ∀ (A x : Bytes) (j : Nat), indexByte 10 A = some j →
-    List.takeWhile (· == 32) (A ++ x) = List.takeWhile (· == 32) A ∧ (List.takeWhile (· == 32) A).length ≤ j
+    List.takeWhile isOWS (A ++ x) = List.takeWhile isOWS A ∧ (List.takeWhile isOWS A).length ≤ j
   | [], _, _, h => by simp [indexByte] at h
   | c :: t, x, j, h => by
-    by_cases hc : c = 32
-    · subst hc
-      simp only [indexByte] at h
+    cases hc : isOWS c with
+    | true =>
+      have h10 := isOWS_ne_lf c hc
+      simp only [indexByte, h10, if_false] at h
       cases hj : indexByte 10 t with
       | none => simp [hj] at h
       | some j' =>
         simp [hj] at h; subst h
         obtain ⟨h1, h2⟩ := takeWhile_sp_append t x j' hj
-        simp only [List.cons_append, List.takeWhile_cons, beq_self_eq_true, if_true, List.length_cons, h1]
+        simp only [List.cons_append, List.takeWhile_cons, hc, if_true, List.length_cons, h1]
         exact ⟨trivial, by omega⟩
-    · simp [hc]
+    | false => simp [hc]
 
 /-- the `kv` answer of `HeaderScanner.Next`, given the colon position `n`, the number `sp` of blanks after it,
 the text `B1` after them, the end `n1` of its first line and the obs-fold look-ahead `extra` -/
@@ -401,12 +405,12 @@ def scanKV (dn : Bool) (B : Bytes) (n sp : Nat) (B1 : Bytes) (n1 extra : Nat) : 
   let region := trimValue (B1.take nEnd)
   .kv (normalizeKey dn (B.take n))
     (if extra > 0 then
-      (((normValAux false region).dropWhile (· == 32)).reverse.dropWhile (· == 32)).reverse else region)
+      (((normValAux false region).dropWhile (· == 32)).reverse.dropWhile isOWS).reverse else region)
     (B1.drop (nEnd + 1)) (n + 1 + sp + nEnd + 1)
 
 def scanValue (dn : Bool) (B : Bytes) (n : Nat) : Scan :=
   let A := B.drop (n + 1)
-  let sp := (A.takeWhile (· == 32)).length
+  let sp := (A.takeWhile isOWS).length
   let B1 := A.drop sp
   match indexByte 10 B1 with
   | none => .needMore
@@ -456,7 +460,7 @@ theorem scanKV_append (dn : Bool) (B x : Bytes) (n sp : Nat) (B1 : Bytes) (n1 ex
 
 /-- the positions computed by `scanValue`, spelled out -/
 structure ValuePos (B : Bytes) (n sp : Nat) (B1 : Bytes) (n1 : Nat) : Prop where
-  sp_eq : sp = ((B.drop (n + 1)).takeWhile (· == 32)).length
+  sp_eq : sp = ((B.drop (n + 1)).takeWhile isOWS).length
   b1_eq : B1 = (B.drop (n + 1)).drop sp
   n1_eq : indexByte 10 B1 = some n1
 
